@@ -119,6 +119,25 @@ def startOp (s : St) (op : String) : Option PC :=
   | ["ret"] => some .gc0
   | _ => none
 
+def kidx : Kind → Nat
+  | .r0 => 0
+  | .r1 => 1
+  | .w => 2
+  | .isd => 3
+  | .g1 => 4
+  | .g2 => 5
+  | .gc0 => 6
+  | .gc1 => 7
+  | .gc2 => 8
+  | .gc3 => 9
+def allKinds : List Kind := [.r0, .r1, .w, .isd, .g1, .g2, .gc0, .gc1, .gc2, .gc3]
+/-- the same state with the counter function re-tabulated (see `compact_eq`) -/
+def compact (s : St) : St := { s with cnt := let t := allKinds.map s.cnt; fun k => tblGet t (kidx k) }
+theorem compact_eq (s : St) : compact s = s := by
+  have : (let t := allKinds.map s.cnt; fun k => tblGet t (kidx k)) = s.cnt := by
+    funext k; cases k <;> rfl
+  simp only [compact, this]
+
 def ops : Ops St PC where
   gstep := gstep
   spawn := spawn
@@ -126,6 +145,7 @@ def ops : Ops St PC where
   startOp := startOp
   openGate := id
   summary := fun _ => "fin"
+  compact := compact
 
 /-- the thread `G` exists from the start (harness: the coroutine is started when the case begins) -/
 def exec0 : Exec St PC := { sh := init 5 true, ths := [{ name := "G" }] }
